@@ -245,14 +245,19 @@ def inv(t, allow_empty_axis=True):
 LAYOUTS = ('csr', 'csr_unsorted', 'csc')
 ZEROS = ('nz', 'z1', 'zall')
 
+def _rep(k):
+    # the alphabets list six shapes; wider axes reuse them with a round number so ids stay unique
+    return '' if k < 6 else str(k // 6)
+
+
 ID_ALPHABETS = {
     'plain': (lambda ax, k: '%s%d' % ('O' if ax == 'observation' else 'S', k + 1)),
-    'punct': (lambda ax, k: ['a b/c', 'x;y|z', "q'r\"s", 'k,l.m', 'p:q=r', '(t)[u]'][k] + ('o' if ax == 'observation' else 's')),
-    'nonascii': (lambda ax, k: ['öb%s', '日本%s', 'éè%s', 'αβ%s', 'Ж%s', 'ü%s'][k] % ('o' if ax == 'observation' else 's')),
+    'punct': (lambda ax, k: ['a b/c', 'x;y|z', "q'r\"s", 'k,l.m', 'p:q=r', '(t)[u]'][k % 6] + ('o' if ax == 'observation' else 's') + _rep(k)),
+    'nonascii': (lambda ax, k: ['öb%s', '日本%s', 'éè%s', 'αβ%s', 'Ж%s', 'ü%s'][k % 6] % (('o' if ax == 'observation' else 's') + _rep(k))),
     'long': (lambda ax, k: ('L%d' % k) + 'x' * 300 + ('o' if ax == 'observation' else 's')),
     'numeric': (lambda ax, k: '%d%s' % (10 ** k, '.5' if ax == 'observation' else '')),
     # leading / trailing / inner blanks (in the C01 domain; not used for TSV, whose domain excludes outer blanks)
-    'padded': (lambda ax, k: [' lead%s', 'trail%s ', ' both%s ', 'in ner%s', '  two%s', 'x%s  '][k] % ('o' if ax == 'observation' else 's')),
+    'padded': (lambda ax, k: [' lead%s', 'trail%s ', ' both%s ', 'in ner%s', '  two%s', 'x%s  '][k % 6] % (('o' if ax == 'observation' else 's') + _rep(k))),
 }
 
 
